@@ -19,10 +19,27 @@ def msg(start, headers, body=b""):
 import os, time
 # ports differ from run to run (connections of a previous run may still be in TIME_WAIT); the
 # concrete ports are part of the op lines, so a replay file is self-contained
-NONCE = (int(time.time()) // 2 + os.getpid()) % 7      # ports 26000..32400: below the kernel's ephemeral range
+# Every scenario gets its own block of ports, taken from one running counter: a service started by `wire start` stays
+# bound for the life of the harness process, so no later scenario may come near its ports. The whole stage stays inside
+# 26000..32700, below the kernel's ephemeral range; the stage's region depends on the process and the time.
+SIZES = {"quick": {"c07": 6 * 12 + 2 * 12 + 2 * 14, "c08": 2 * 8, "c15": 16}, "thorough": {"c07": 60 * 12 + 20 * 12 + 20 * 14, "c08": 30 * 8, "c15": 2 * 16}}
+_next = [26000, 32700]
+
+def region(tier, focus):
+    sz = SIZES[tier]
+    total = sum(sz.values())
+    nonce = (int(time.time()) // 2 + os.getpid()) % ((32700 - 26000) // total)
+    start = 26000 + nonce * total + sum(v for f, v in sz.items() if f < focus)
+    _next[0], _next[1] = start, start + sz[focus]
+
+def take(n):
+    base = _next[0]
+    _next[0] += n
+    assert _next[0] <= _next[1], "wire: port region exhausted"
+    return base
 
 def gen_c07(g, lines, k):
-    base = 26000 + NONCE * 800 + k * 12
+    base = take(12)
     lip, P, T = "127.0.0.1", base, base + 1
     BP, UP, VP, LP = base + 2, base + 3, base + 4, base + 5
     no_received = [None, False, True, None][k % 4]
@@ -83,7 +100,7 @@ def gen_c07(g, lines, k):
 def gen_c07_two(g, lines, k):
     """one service, two listeners with DIFFERENT no-received settings, in both orders: each listener stamps (or
     does not stamp) according to its own setting, whatever the others say"""
-    base = 26000 + NONCE * 800 + 640 + k * 14
+    base = take(14)
     lip = "127.0.0.1"
     P1, T1, P2, T2, BP, UP, VP = base, base + 1, base + 2, base + 3, base + 4, base + 5, base + 6
     first_off = (k % 2 == 0)                 # which of the two listeners has no-received: true
@@ -112,7 +129,7 @@ def gen_c07_two(g, lines, k):
 def gen_c07_outbound(g, lines, k):
     """a listener created for a connection the proxy dialed itself (tcp:// backend): the backend talks back
     over that connection; its requests must be stamped like any other (received-support on)"""
-    base = 26000 + NONCE * 800 + 400 + k * 12
+    base = take(12)
     lip, P, T, BP, UP = "127.0.0.1", base, base + 1, base + 2, base + 3
     no_received = [None, True][k % 2]
     rcvd = not no_received
@@ -140,7 +157,7 @@ def gen_c08(g, lines, k):
     """hostile field values against the REAL service (real UDP/TCP transports, real client-transport selection): after each
     batch a well-formed request must still be relayed"""
     from . import hostile
-    base = 26000 + NONCE * 800 + 720 + (k % 5) * 8
+    base = take(8)
     lip, P, T, BP, UP = "127.0.0.1", base, base + 1, base + 2, base + 3
     be = "127.0.1.1:%d" % BP
     ua = "127.0.2.1:%d" % UP
@@ -176,7 +193,7 @@ def gen_c15(g, lines, k):
     """two services in one configuration file, started the way main() starts them (startProxies): the first one sets
     dialogTimeout: 1, the second one leaves it to the default (1200 s). A dialog pinned on the second service is still
     pinned one and a half seconds later."""
-    base = 26000 + NONCE * 800 + 760 + (k % 2) * 16
+    base = take(16)
     lip = "127.0.0.1"
     P1, P2, B1, B2, B3, UP = base, base + 1, base + 2, base + 3, base + 4, base + 5
     b1, b2, b3, ua = "127.0.1.1:%d" % B1, "127.0.1.2:%d" % B2, "127.0.1.3:%d" % B3, "127.0.2.1:%d" % UP
@@ -208,6 +225,7 @@ def gen_c15(g, lines, k):
 def generate(seed, tier, focus="c07"):
     g = Gen(seed)
     lines = []
+    region("quick" if tier == "quick" else "thorough", focus)
     n = 6 if tier == "quick" else 60
     for k in range(n):
         if focus == "c15":
